@@ -4,7 +4,7 @@
      strict_fail_lazy_fail : run_s .. = Err e -> OrderIndependentCause e -> exists e', run_l .. = Err e'
    are not proved (and strict_lazy_agree is FALSE as stated for cyclic scoped-variable definitions: K7 below).
    Proved here:
-   * strict_lazy_same_graph_partial — the first WHOLE-RUN theorem relating Model/Strict.v and Model/Lazy.v
+   * strict_lazy_same_graph_partial — version 1, WHOLE-RUN theorem relating Model/Strict.v and Model/Lazy.v
      (Proofs/SLGraph.v, SLForce.v, SLExpr.v, SLStmt.v, StrictLazy.v).  Fragment (`file_ok`, built from `fexpr`/`fstmt` of
      Proofs/SLExpr.v): no scoped variables (no EScoped, no VarS); every called function is graph-pure (`pure_fn`: it
      neither reads nor changes the graph — every stdlib function except `node`, stdlib_graph_pure_partial); in every
@@ -17,18 +17,49 @@
      panics, and when it does not run out of model fuel it returns EXACTLY the strict graph (same node numbering,
      same attribute lists in the same order, same sorted edge vectors) — equality, not just isomorphism.
    * strict_lazy_adequate_partial — adequacy on the same fragment (Proofs/SLConv.v): some lazy model fuel suffices,
-     and from that fuel on lazy execution IS Ok with exactly the strict graph; so on the fragment "strict succeeds ->
-     lazy succeeds with the same graph" holds without any fuel caveat.
-     NOT proved: scoped variables (any use); `(node)` calls, for which only isomorphism can hold; an arbitrary
-     interleaving of the matches of different stanzas as tree-sitter reports them for the merged query; the
-     failure direction strict_fail_lazy_fail.
+     and from that fuel on lazy execution IS Ok with exactly the strict graph.
+   * strict_lazy_same_graph_scoped_partial, strict_lazy_adequate_scoped_partial — version 2: the same two statements on
+     the fragment WITH SCOPED VARIABLES (Proofs/SL2Force.v, SL2Expr.v, SL2Stmt.v, SL2Whole.v; adequacy: SL2Conv.v,
+     SL2StmtConv.v, SL2Adequate.v).  Fragment v2 (`file_ok2 okfn purev`, built from `fexpr2 b`/`fstmt2`) = fragment v1 plus
+       (a) immutable scoped definitions `let <scope>.x = e` and `node <scope>.x` (`var`/`set` on scoped variables stay
+           excluded: lazy execution rejects them) and scoped reads `<scope>.x` in DEFERRED positions: the value of
+           let/var/set, attribute values, the endpoints of edge/attr statements, print arguments, the ELEMENT of a
+           comprehension, arguments of calls, and the scope expression of another scoped read (`@n.owner.k`);
+       (b) EAGER positions are pure: the condition of `if`, the subject of `scan`, the list of `for` and of a
+           comprehension must be `fexpr2 true`: no scoped read, and only unscoped variables whose NAME is declared pure
+           by `purev : ident -> bool`; every let/var/set of a pure name must have a pure right-hand side (`fbind2`,
+           `fmut2`), loop/comprehension/`node` variables are bound to plain values, and shorthand variables must not be
+           declared pure.  (A name-based, flow-insensitive version of the checker's locality rule, Model/Checker.v.)
+           Reason: `let @x.a = 1  if some @x.a {}  let @y.a = 2` succeeds strictly, but the lazy `if` forces the cell
+           of `a` and the later definition fails with VariableScopesAlreadyForced;
+       (c) the scope expression of a DEFINITION is pure in the same sense (this excludes the K7 class, also when the
+           cycle goes through local variables: `let t = @x.a  let t.b = ..  let u = t.b  let u.a = ..`);
+       (d) inherited names are allowed under the side condition `inh_antichain t fl (s_scoped s)` on the FINAL strict
+           scoped store s: no node that defines an inherited name has a proper ancestor that defines it too.  This
+           implies the property's "no inherited scoped variable defined on a nearer node after being read" but is
+           stronger (it also forbids a shadowing definition made BEFORE the read); it holds of every store when the
+           file declares no inherited names (inh_antichain_nil_partial).
+     Why strict success gives order insensitivity: scoped variables are immutable, a strict read succeeds only after
+     the definition ran, and a second definition of the same (node, name) makes strict execution fail; so the value a
+     strict read returned is the value of the one definition the lazy cell of that name holds for that node (or, for
+     an inherited name, for the nearest defining ancestor).  Proof: a WORLD gives every thunk its value and a purity
+     flag and lists the scoped definitions executed so far with the location of their value thunk; lazy values DENOTE
+     strict values (`den2`; a scoped read denotes the value of a definition whose thunk is an EARLIER location);
+     cells stay unforced during the execution phase; in the evaluation phase forcing a cell evaluates only pure
+     scopes (level-0 forcing lemma: no re-entry), finds no duplicate node, and a scoped read then forces an earlier
+     thunk (level-1 forcing lemma).
+     NOT proved: mutable scoped variables; inherited names outside (d); programs whose eager positions or definition
+     scopes depend on scoped variables (the checker accepts some of them, e.g. a definition scope `@x.owner`, and
+     lazy execution then depends on the order of forcing); `(node)` calls, for which only isomorphism can hold; an
+     arbitrary interleaving of the matches of different stanzas as tree-sitter reports them for the merged query;
+     the failure direction strict_fail_lazy_fail.
    * building blocks named in DESIGN.md §7 C02 — the two interpreters' copies of capture binding, regex-capture
      lookup and scan-arm selection compute the same thing, and the lazy store's forcing discipline (a thunk is
      forced at most once, every reader sees one value).
-   The whole-run statements outside the fragment are explored by the direct strict-vs-lazy stream and both
+   The whole-run statements outside the fragments are explored by the direct strict-vs-lazy stream and both
    correspondence streams. *)
 From TSG Require Import Model.Strict Model.Lazy Model.Run Model.Stdlib Proofs.Captures Proofs.MonadFacts Proofs.K7
-  Proofs.SLExpr Proofs.StrictLazy Proofs.SLExample.
+  Proofs.SLExpr Proofs.StrictLazy Proofs.SLExample Proofs.SL2Expr Proofs.SL2Stmt Proofs.SL2Whole Proofs.SL2Adequate Proofs.SL2Example.
 
 (* `$k` has the same value in both modes; out of range is UndefinedRegexCapture in both *)
 Theorem lazy_regex_capture_partial : forall t fl glob call fuel fuel' (le : lenv) (ll : llenv) i s p sl pl,
@@ -102,6 +133,66 @@ Theorem strict_lazy_adequate_partial :
   exists lfuel0, forall lfuel, (lfuel0 <= lfuel)%nat ->
     exists ls pl, run_lazy t fl config0 supplied None regexes find call lfuel (lmatches_of ms) g0 = Ok (ls, pl) /\ l_graph ls = s_graph s.
 Proof. exact @strict_lazy_adequate_lemma. Qed.
+
+(* WHOLE RUN, version 2: the fragment WITH scoped variables (`file_ok2`, built from `fexpr2` of Proofs/SL2Expr.v and
+   `fstmt2` of Proofs/SL2Stmt.v; see the header).  `purev` names the unscoped variables that never depend on a
+   scoped variable; `inh_antichain` (Proofs/SL2Whole.v) is the side condition for inherited names on the FINAL strict
+   scoped store: no node that defines an inherited name has a proper ancestor that defines it too (trivially true
+   when the file declares no inherited name: inh_antichain_nil_partial). *)
+Theorem strict_lazy_same_graph_scoped_partial :
+  forall {rx : Type} t fl supplied (regexes : list rx) find call (okfn : ident -> Prop) (purev : ident -> bool) fuel ms g0 s p,
+  (forall f, okfn f -> pure_fn call f) ->
+  file_ok2 okfn purev fl (f_stanzas fl) ms ->
+  run_strict t fl config0 supplied None regexes find call fuel ms g0 = Ok (s, p) ->
+  inh_antichain t fl (s_scoped s) ->
+  forall lfuel,
+    match run_lazy t fl config0 supplied None regexes find call lfuel (lmatches_of ms) g0 with
+    | Ok (ls, _) => l_graph ls = s_graph s
+    | OutOfFuel => True
+    | Err _ | Panic _ => False
+    end.
+Proof. exact @strict_lazy_same_graph_scoped_lemma. Qed.
+
+(* adequacy on the fragment with scoped variables: some lazy fuel suffices; from that fuel on the lazy run is Ok and
+   returns exactly the strict graph *)
+Theorem strict_lazy_adequate_scoped_partial :
+  forall {rx : Type} t fl supplied (regexes : list rx) find call (okfn : ident -> Prop) (purev : ident -> bool) fuel ms g0 s p,
+  (forall f, okfn f -> pure_fn call f) ->
+  file_ok2 okfn purev fl (f_stanzas fl) ms ->
+  run_strict t fl config0 supplied None regexes find call fuel ms g0 = Ok (s, p) ->
+  inh_antichain t fl (s_scoped s) ->
+  exists lfuel0, forall lfuel, (lfuel0 <= lfuel)%nat ->
+    exists ls pl, run_lazy t fl config0 supplied None regexes find call lfuel (lmatches_of ms) g0 = Ok (ls, pl) /\ l_graph ls = s_graph s.
+Proof. exact @strict_lazy_adequate_scoped_lemma. Qed.
+
+(* without inherited names the side condition holds of every store *)
+Theorem inh_antichain_nil_partial : forall t fl sc, f_inherited fl = [] -> inh_antichain t fl sc.
+Proof. exact inh_antichain_nil. Qed.
+
+(* the hypotheses hold of a concrete program in which the second stanza reads the scoped variable `n` that the
+   first stanza defined on other matches (also: a scoped read whose scope is a scoped read, a scoped definition
+   by `let`, a pure local variable in the condition of `if`: Proofs/SL2Example.v); both runs are Ok with the
+   same six-node graph *)
+Example strict_lazy_same_graph_scoped_nonvacuous :
+  (forall f, ex2_okfn f -> pure_fn (the_call k7_tree []) f) /\
+  (forall sc, inh_antichain k7_tree ex2_file sc) /\
+  file_ok2 ex2_okfn ex2_purev ex2_file (f_stanzas ex2_file) ex2_matches /\
+  graph_of (run_strict k7_tree ex2_file config0 [[]] None ([] : list regex) rx_captures (the_call k7_tree []) default_fuel ex2_matches []) = Ok ex2_graph /\
+  lgraph_of (run_lazy k7_tree ex2_file config0 [[]] None ([] : list regex) rx_captures (the_call k7_tree []) default_fuel (lmatches_of ex2_matches) []) = Ok ex2_graph /\
+  length ex2_graph = 6%nat.
+Proof. split; [exact ex2_pure|]. split; [intros sc; apply inh_antichain_nil; reflexivity|]. split; [exact ex2_file_ok|]. split; [exact ex2_strict_ok|]. split; [exact ex2_lazy_ok|reflexivity]. Qed.
+
+(* ... and of a program with an INHERITED name: `scope` is defined on the root node by one stanza and read by another
+   stanza from the identifiers (grandchildren of the root) through inheritance; the final strict store satisfies the
+   side condition; both runs are Ok with the same four-node graph *)
+Example strict_lazy_same_graph_inherited_nonvacuous :
+  f_inherited ex3_file <> [] /\
+  file_ok2 ex2_okfn ex3_purev ex3_file (f_stanzas ex3_file) ex3_matches /\
+  (exists s p, run_strict k7_tree ex3_file config0 [[]] None ([] : list regex) rx_captures (the_call k7_tree []) default_fuel ex3_matches [] = Ok (s, p) /\
+               inh_antichain k7_tree ex3_file (s_scoped s) /\ s_graph s = ex3_graph) /\
+  lgraph_of (run_lazy k7_tree ex3_file config0 [[]] None ([] : list regex) rx_captures (the_call k7_tree []) default_fuel (lmatches_of ex3_matches) []) = Ok ex3_graph /\
+  length ex3_graph = 4%nat.
+Proof. split; [discriminate|]. split; [exact ex3_file_ok|]. split; [exact ex3_strict_ok|]. split; [exact ex3_lazy_ok|reflexivity]. Qed.
 
 (* every function of the standard library except `node` satisfies the purity hypothesis *)
 Theorem stdlib_graph_pure_partial : forall rxo t f, fn_of_name f <> Some FNode -> pure_fn (stdlib_call rxo t) f.
